@@ -397,8 +397,8 @@ def eqhash_pool(nodes, rng, counters=None, max_triples=20000):
       if bool(ne) == r:
         eo = next((k.__name__ for k in type(a).__mro__ if "__eq__" in k.__dict__), "?")
         no = next((k.__name__ for k in type(a).__mro__ if "__ne__" in k.__dict__), "?")
-        v(f"== and != give the same answer (__eq__ of {eo}, __ne__ of {no})",
-          a=repr(a)[:300], b=repr(b)[:300], eq=r, ne=bool(ne))
+        # observed, not judged: C12 speaks of equality and hashing, not of `!=`
+        c[f"observed_eq_and_ne_agree({eo}/{no})"] += 1
   for i in range(n):
     if not eq[i][i]:
       v(f"a {type(nodes[i]).__name__} node is not equal to itself", a=repr(nodes[i])[:300])
